@@ -233,3 +233,86 @@ def _save_overwrite_restore(m):
         if restores and overs:
             for o in overs:
                 yield attr, local, o, restores
+
+
+# ---- a script-visible slot that a native borrows is handed back on every normal exit ----------------------------
+def _slot_of_read(e: ast.AST) -> Optional[Tuple[str, str]]:
+    """(object text, slot) for `B.attr` and `B.get("slot")`."""
+    if isinstance(e, ast.Attribute) and not isinstance(e.value, ast.Call):
+        return norm(e.value), e.attr
+    if isinstance(e, ast.Call) and isinstance(e.func, ast.Attribute) and e.func.attr == "get" and len(e.args) == 1 and isinstance(e.args[0], ast.Constant) and isinstance(e.args[0].value, str):
+        return norm(e.func.value), e.args[0].value
+    return None
+
+
+def _slot_writes(m) -> List[Tuple[ast.stmt, str, str, ast.AST]]:
+    """(statement, object text, slot, value) for `B.attr = v` and `B.set("slot", v)`."""
+    out = []
+    for a in m.own_nodes():
+        if isinstance(a, ast.Assign):
+            for t in a.targets:
+                if isinstance(t, ast.Attribute):
+                    out.append((a, norm(t.value), t.attr, a.value))
+        if isinstance(a, ast.Expr) and isinstance(a.value, ast.Call) and isinstance(a.value.func, ast.Attribute) and a.value.func.attr == "set" and len(a.value.args) == 2 and isinstance(a.value.args[0], ast.Constant) and isinstance(a.value.args[0].value, str):
+            out.append((a, norm(a.value.func.value), a.value.args[0].value, a.value.args[1]))
+    return out
+
+
+def borrowed_slots(m):
+    """(object, slot, local, overwrite statement, [restore statements]): the function saves a slot of an object in a
+    local, stores something else in the slot and stores the local back."""
+    saves: Dict[str, Tuple[str, str]] = {}
+    for a in m.own_nodes():
+        if isinstance(a, ast.Assign) and len(a.targets) == 1 and isinstance(a.targets[0], ast.Name):
+            sl = _slot_of_read(a.value)
+            if sl is not None and sl[0] != "self":
+                saves[a.targets[0].id] = sl
+    writes = _slot_writes(m)
+    for local, (obj, slot) in saves.items():
+        mine = [(st, v) for st, o, s_, v in writes if o == obj and s_ == slot]
+        restores = [st for st, v in mine if isinstance(v, ast.Name) and v.id == local]
+        overs = [st for st, v in mine if not (isinstance(v, ast.Name) and v.id == local)]
+        if restores and overs:
+            for o in overs:
+                yield obj, slot, local, o, restores
+
+
+def rule_borrowed_slot_restored(ctx, rep, rid: str, where, what: str, floor: int = 0) -> None:
+    """A built-in that borrows a script-visible slot of one of its arguments (saves it, sets it for the duration of an
+    inner operation, puts it back: String.prototype.search and a RegExp's lastIndex) has to put it back on every
+    normal exit; an early return between the overwrite and the restore leaves the argument changed."""
+    rep.rule(rid, f"a native of {what} that saves a slot of an object in a local, overwrites the slot and restores it from the local restores it on every path from the overwrite to a normal return (early returns included; a try/finally counts): otherwise the caller's object comes back changed (a RegExp whose lastIndex a failed search reset)", floor=floor)
+    ctl = ast.parse("def search(p, s):\n    previous = p.get('lastIndex')\n    p.set('lastIndex', 0)\n    found = p.exec(s)\n    if found is NULL:\n        return -1\n    p.set('lastIndex', previous)\n    return found\n")
+    fn = ctl.body[0]
+
+    class _F:
+        node = fn
+
+        @staticmethod
+        def own_nodes():
+            return list(ast.walk(fn))
+
+    if len(list(borrowed_slots(_F))) != 1:  # type: ignore[arg-type]
+        raise AnalysisError(f"{rid}: positive control failed (borrowed slot not recognised)")
+    n = 0
+    for m in ctx.tree.funcs:
+        if isinstance(m.node, ast.Lambda) or not where(m):
+            continue
+        for obj, slot, local, over, restores in borrowed_slots(m):
+            n += 1
+            cfg = ctx.facts.cfg(m)
+            rnodes = {nd.id for nd in cfg.nodes if nd.ast is not None and any(x is r for r in restores for x in ast.walk(nd.ast))}
+            onodes = [nd for nd in cfg.nodes if nd.ast is not None and any(x is over for x in ast.walk(nd.ast))]
+            key = f"{m.qual}:{obj}.{slot} restored from {local}"
+            bad = None
+            for o in onodes:
+                p = cfg.path_avoiding(o.id, lambda nd: nd.id == cfg.exit.id, rnodes, None, start_succ=True)
+                if p is not None and not any(x.kind == "raise" for x in p):
+                    bad = (o, p)
+                    break
+            if bad is None:
+                rep.ok(rid, key, {"restores": len(restores)})
+            else:
+                o, p = bad
+                rep.bad(rid, key, f"{m.qual} saves {obj}.{slot} in `{local}`, overwrites it at line {o.line} and can return through lines {[x.line for x in p if x.line][:8]} without putting it back (its other exits restore it): the object the script passed in comes back changed", f"{m.module.rel}:{o.line}")
+    rep.ok(rid, "borrowed-slots", {"save_overwrite_restore_patterns": n})
